@@ -75,6 +75,9 @@ pub struct RwWorld {
     handles: Vec<Box<Arc<L>>>,
     raw: *const L,
     dropped: Arc<AtomicUsize>,
+    quiescent: bool,
+    /// a read() future completed although a writer had announced itself (C12)
+    overtaken: bool,
 }
 
 pub fn make(line: &str) -> Option<Box<dyn World>> {
@@ -89,6 +92,8 @@ pub fn make(line: &str) -> Option<Box<dyn World>> {
             handles: vec![Box::new(m)],
             raw,
             dropped,
+            quiescent: true,
+            overtaken: false,
         }));
     }
     None
@@ -172,6 +177,14 @@ impl World for RwWorld {
                 let (Some(f), Some(w), Some(fire)) = (num(1), num(2), num(3)) else {
                     return "bad-op".into();
                 };
+                // C12 precondition, evaluated before the poll: quiescent, a polled write()/upgrade
+                    // pending (other than the polled future), no write or upgradable guard alive
+                let writer_waiting = self.quiescent
+                    && self.count(K::Write) == 0
+                    && self.count(K::URead) == 0
+                    && self.futs.iter().any(|(i, x)| {
+                        *i != f && x.polled && !x.done && (x.kind == K::Write || x.kind == K::Upgrade)
+                    });
                 let Some(fu) = self.futs.get_mut(&f) else { return "bad-op".into() };
                 if fu.done {
                     return "bad-op".into();
@@ -180,6 +193,7 @@ impl World for RwWorld {
                 let mut cx = Context::from_waker(&wk);
                 fu.polled = true;
                 fu.last_waker = w;
+                let is_read = fu.kind == K::Read;
                 async_lock::__verif::set_starvation_oracle(Some(Box::new(move || fire == 1)));
                 let res = match &mut fu.f {
                     F::Read(p) => p.as_mut().poll(&mut cx).map(G::R),
@@ -196,6 +210,9 @@ impl World for RwWorld {
                     Poll::Ready(g) => {
                         fu.done = true;
                         self.guards.insert(f, g);
+                        if is_read && writer_waiting {
+                            self.overtaken = true;
+                        }
                         "ready".into()
                     }
                     Poll::Pending => "pending".into(),
@@ -443,8 +460,18 @@ impl World for RwWorld {
                 }
             }
         }
-        // C10: no stale listeners; nothing left behind once everything is gone
+        // C14: nothing alive that could conflict => try_write succeeds (idle probe; restores state)
         let listeners: usize = snap.events.iter().map(|e| e.0).sum();
+        if r + u + w == 0 && pr + pu + pw + pup_live == 0 && listeners == 0 {
+            match self.lref().try_write() {
+                Some(g) => drop(g),
+                None => m.push("C14".to_string()),
+            }
+        }
+        if self.overtaken {
+            m.push("C12".to_string());
+        }
+        // C10: no stale listeners; nothing left behind once everything is gone
         if listeners > pr + pu + pw + pup {
             m.push("C10".to_string());
         }
@@ -468,6 +495,10 @@ impl World for RwWorld {
 
     fn repoll_op(&self, f: u32) -> Option<String> {
         self.futs.get(&f).filter(|x| !x.done).map(|x| format!("poll {} {} 0", f, x.last_waker))
+    }
+
+    fn note_quiescent(&mut self, q: bool) {
+        self.quiescent = q;
     }
 }
 
